@@ -124,6 +124,8 @@ def gen_kwargs(opts):
     if opts.get("slots") and fw in ("attrs", "dataclasses"):
         # documented generator option: extra keyword arguments for the @attr.s / @dataclass decorator
         kw["attrs_kwargs" if fw == "attrs" else "dataclass_kwargs"] = {"slots": True}
+    if opts.get("deco_kwargs") and fw in ("attrs", "dataclasses"):
+        kw["attrs_kwargs" if fw == "attrs" else "dataclass_kwargs"] = dict(opts["deco_kwargs"])
     style = opts.get("style")
     if style == "no-actual-type":
         kw["types_style"] = {dt.StringSerializable: {dt.StringSerializable.TypeStyle.use_actual_type: False}}
